@@ -278,7 +278,16 @@ pub fn drive(trace: &Trace, stats: &mut Stats, h: &mut dyn StepHandler) -> Vec<F
                     stats.fault("F10_selftest_fails");
                 }
             }
-            Step::Q(_) => {}
+            Step::Q(op) => {
+                if let Err(p) = world.exec_q(op) {
+                    findings.push(Finding::new("C01.panic", panic_signature(&p), i, format!("queue operation {:?} panicked: {}", op, p)));
+                    return findings;
+                }
+                // adopting copies the whole queue: do it once after a burst of queue operations
+                if matches!(trace.steps.get(i + 1), Some(Step::Q(_))) {
+                    continue;
+                }
+            }
         }
         model = world.adopt();
     }
